@@ -137,7 +137,7 @@ def run_layout(R, tonic):
             if okf:
                 flag_src = loc_of(strip_refs(flag[2][0])) if is_call(flag) else loc_of(flag)
             ln = payload_len_source(pw[1]['value'])
-            okl = 'SubWithOverflow' in show(ln) and find_terms(ln, lambda x: is_call(x, name='len') and arg_root(x[2][0]) == slice_n) and 'const(%d)' % hs in show(ln)
+            okl = is_payload_len(ln, slice_n, hs)
             R.check(bool(okl), 'C01.R1', 'length=slice_len-HEADER_SIZE', site(fe, pw[1]['bb']), 'length operand = %s' % show(ln)[:100])
         ei = tonic.body('codec::encode::encode_item')
         R.saw(ei)
